@@ -461,6 +461,61 @@ func init() {
 				}
 			}
 		}
+		// (3) nested arches: thick arches standing on one side of the box, one inside the other, with a tooth under the
+		// innermost one - each arch is one result polygon made of two pieces (its outer and its inner outline) whose
+		// endpoints enclose the endpoints of everything under it. General position (no vertex on the box outline). The
+		// figure is turned to stand on each of the four sides, in both windings, members in any order.
+		for i := 0; i < c.pick(600, 12000); i++ {
+			k := 1 + c.rng.Intn(3) // arches
+			// figure space: feet at y = -2 (outside), the side stood on at y = 0, everything else in 0 < y < H, |x| < W
+			W, H := 4*k+4, 2*k+4
+			var rings [][][2]int
+			for a := 1; a <= k; a++ { // arch a: outer half-width 4a+2, inner 4a; outer height 2a+2, inner 2a+1
+				xo, xi, yo, yi := 4*a+2, 4*a, 2*a+2, 2*a+1
+				rings = append(rings, [][2]int{{-xo, -2}, {-xi, -2}, {-xi, yi}, {xi, yi}, {xi, -2}, {xo, -2}, {xo, yo}, {-xo, yo}})
+			}
+			if c.rng.Intn(3) > 0 {
+				rings = append(rings, [][2]int{{-1, -2}, {1, -2}, {1 + c.rng.Intn(2), 2}, {-1, 2}}) // the tooth
+			}
+			c.rng.Shuffle(len(rings), func(a, b int) { rings[a], rings[b] = rings[b], rings[a] })
+			rot := c.rng.Intn(4)
+			turn := func(p [2]int) [2]int { // quarter turns about the origin
+				switch rot {
+				case 1:
+					return [2]int{-p[1], p[0]}
+				case 2:
+					return [2]int{-p[0], -p[1]}
+				case 3:
+					return [2]int{p[1], -p[0]}
+				}
+				return p
+			}
+			o := 1 - 2*c.rng.Intn(2)
+			const off, unit = 40, 30 // shift to positive coordinates; half a grid unit per figure unit
+			lat := func(p [2]int) [2]int { q := turn(p); return [2]int{(q[0] + off) * unit, (q[1] + off) * unit} }
+			c0, c1 := lat([2]int{-W, 0}), lat([2]int{W, H})
+			box := [4]int{c0[0], c0[1], c1[0], c1[1]}
+			if box[0] > box[2] {
+				box[0], box[2] = box[2], box[0]
+			}
+			if box[1] > box[3] {
+				box[1], box[3] = box[3], box[1]
+			}
+			var in [][][][2]int
+			for _, r := range rings {
+				var rr [][2]int
+				for _, p := range r {
+					rr = append(rr, lat(p))
+				}
+				in = append(in, [][][2]int{closed(orient(rr, o))})
+			}
+			c16Unclosed, c16AsCollection = false, c.rng.Intn(4) == 0
+			if len(in) == 1 {
+				c16Smart(c, []string{"Ring", "Polygon", "Geometry"}[c.rng.Intn(3)], box, in, o)
+			} else {
+				c16Smart(c, []string{"MultiPolygon", "Geometry"}[c.rng.Intn(2)], box, in, o)
+			}
+		}
 	})
 }
 
